@@ -40,7 +40,7 @@ func (c07) Classes() []sim.Class {
 			// a guest that recurses exponentially without any loop or tail call: the recorded known finding
 			sim.Class{Name: "recursion", Engine: e, Quick: 2, Thorough: 12, RunTimeoutSec: 60, Batch: 1},
 			// a guest spinning in its start-section function, i.e. inside InstantiateModule
-			sim.Class{Name: "start-function", Engine: e, Quick: 6, Thorough: 60, RunTimeoutSec: 60, Batch: 1},
+			sim.Class{Name: "start-function", Engine: e, Quick: 40, Thorough: 600, RunTimeoutSec: 60, Batch: 4},
 			sim.Class{Name: "synctest-deadline", Engine: e, Quick: 120, Thorough: 6000, DeathIsViolation: true, RunTimeoutSec: 60, Batch: 10, Toolchain: "go1.26.8"},
 		)
 	}
